@@ -1,3 +1,293 @@
-/-! Property C16 — theorems (statements live here, helper lemmas in Faithful/Lib) -/
+import Faithful.Lib.SplitCar
+
+/-!
+# Property C16 — split CARs read back as the exact concatenation of their pieces
+
+Model: `Faithful/Lib/SplitCar.lean` (+ `Faithful/Lib/Multi.lean`).  The driver `Driver/C16.lean` executes
+`SplitCar.readAt`, `SplitCar.newReader`, `SplitCar.Reader.readAt`, `SplitCar.splitCmd` — the definitions
+these theorems are about.
+
+Reading adopted for "the sizes recorded in the metadata match the files written" (DESIGN.md §C16): the
+recorded range `[HeaderSize, HeaderSize+ContentSize)` of a piece delimits exactly its block DAGs
+(`split_sizes`, `split_content_range`); the file itself is longer (Subset / Epoch node appended), which is
+the `tail` in `SplitCar.pieceFile`.
+-/
+
 namespace C16
+open SplitCar
+open Multi (Bytes want)
+
+/-! ## MultiReaderAt.ReadAt -/
+
+/-- Every reader holds its declared size (what `NewSplitCarReader` sets up).  For any number and sizes of
+    pieces (zero-length ones included), any offset (also past the end) and any positive length: the bytes
+    returned are the requested window of the concatenation, and io.EOF is returned iff the window is short. -/
+theorem multiReadAt_spec (segs : List Bytes) (off len : Nat) (hne : segs ≠ []) (_hlen : 0 < len) :
+    (readAt (segs.map Seg.exact) off len).1 = (segs.flatten.drop off).take len ∧
+    ((readAt (segs.map Seg.exact) off len).2 = true ↔ ((segs.flatten.drop off).take len).length < len) := by
+  have h := readAt_total segs off len
+  refine ⟨h.1, ?_⟩
+  rw [h.2]; unfold want
+  exact ⟨fun x => x.2, fun x => ⟨hne, x⟩⟩
+
+/-- The same without any hypothesis: the bytes are *always* the requested window; io.EOF iff the window is
+    short *and there is at least one segment*.  (`len = 0`: a window of length 0 is never short.) -/
+theorem multiReadAt_total (segs : List Bytes) (off len : Nat) :
+    (readAt (segs.map Seg.exact) off len).1 = (segs.flatten.drop off).take len ∧
+    ((readAt (segs.map Seg.exact) off len).2 = true ↔
+      segs ≠ [] ∧ ((segs.flatten.drop off).take len).length < len) :=
+  readAt_total segs off len
+
+/-- "end-of-file reported only at the true end": io.EOF iff the requested range reaches past the last byte. -/
+theorem multiReadAt_eof_iff_past_end (segs : List Bytes) (off len : Nat) (hne : segs ≠ []) (hlen : 0 < len) :
+    (readAt (segs.map Seg.exact) off len).2 = true ↔ segs.flatten.length < off + len := by
+  rw [(readAt_total segs off len).2, want_length]
+  rcases Nat.le_total len (segs.flatten.length - off) with h1 | h1
+  · rw [Nat.min_eq_left h1]
+    constructor
+    · intro h; have := h.2; omega
+    · intro h; omega
+  · rw [Nat.min_eq_right h1]
+    constructor
+    · intro h; have := h.2; omega
+    · intro h; exact ⟨hne, by omega⟩
+
+/-- and the number of bytes returned is `min len (total - off)` -/
+theorem multiReadAt_count (segs : List Bytes) (off len : Nat) :
+    (readAt (segs.map Seg.exact) off len).1.length = min len (segs.flatten.length - off) := by
+  rw [(readAt_total segs off len).1, want_length]
+
+/-- corner case excluded from `multiReadAt_spec`: a `MultiReaderAt` with no reader answers `(0, nil)` to
+    every read, also to a non-empty one (short read without error).  Not reachable through
+    `NewSplitCarReader`, which always supplies the header segment. -/
+theorem multiReadAt_no_segments (off : Int) (len : Nat) : readAt [] off len = ([], false) :=
+  readAt_nil off len
+
+/-- corner case excluded from `multiReadAt_spec`: a zero-length read answers `(0, nil)` at every offset,
+    also past the end (any size table, any reader contents). -/
+theorem multiReadAt_len_zero (segs : List Seg) (off : Int) : readAt segs off 0 = ([], false) :=
+  readAt_len_zero segs off
+
+/-- a negative offset answers `(0, nil)` (no segment starts at or before it) -/
+theorem multiReadAt_negative_offset (segs : List Seg) (off : Int) (len : Nat) (h : off < 0) :
+    readAt segs off len = ([], false) :=
+  readAt_neg segs off len h
+
+/-! ## SplitCarReader -/
+
+/-- when does `NewSplitCarReader` succeed (for local-file and in-memory readers) -/
+theorem splitReader_new_ok_iff (md : Meta) (pieces : List PieceIn) :
+    (∃ r, newReader md pieces = .ok r) ↔
+      (Varint.put md.header.length ++ md.header).length = md.headerSize ∧
+      ∀ p ∈ pieces, p.kind = RKind.file → p.file.length = p.headerSize + p.contentSize := by
+  unfold newReader origHeader
+  by_cases hh : (Varint.put md.header.length ++ md.header).length = md.headerSize
+  · rw [if_pos hh]
+    simp only [hh, true_and]
+    rw [← checkPieces_none pieces 0]
+    cases hc : checkPieces pieces 0 with
+    | none => simp
+    | some e => simp
+  · rw [if_neg hh]
+    constructor
+    · intro ⟨r, hr⟩; cases hr
+    · intro h; exact absurd h.1 hh
+
+theorem newReader_segs (md : Meta) (pieces : List PieceIn) (r : Reader) (hnew : newReader md pieces = .ok r) :
+    r.segs = Seg.exact (Varint.put md.header.length ++ md.header) ::
+      pieces.map fun p => ⟨content p, p.contentSize⟩ := by
+  unfold newReader origHeader at hnew
+  simp only at hnew
+  split at hnew
+  · cases hnew
+  · rename_i h heq
+    split at heq
+    · cases heq
+      split at hnew
+      · cases hnew
+      · cases hnew; rfl
+    · cases heq
+
+/-- `SplitCarReader.ReadAt` = the window of (original header ‖ content of every piece in order), where the
+    content of a piece is `file[HeaderSize, HeaderSize+ContentSize)`; io.EOF iff the window is short.
+    Hypothesis `hsz`: every piece file is at least `HeaderSize+ContentSize` long (what `NewSplitCarReader`
+    itself demands of local and remote files). -/
+theorem splitReader_spec (md : Meta) (pieces : List PieceIn) (r : Reader)
+    (hnew : newReader md pieces = .ok r)
+    (hsz : ∀ p ∈ pieces, p.headerSize + p.contentSize ≤ p.file.length) (off len : Nat) :
+    (r.readAt off len).1 =
+      ((((Varint.put md.header.length ++ md.header) :: pieces.map content).flatten.drop off).take len) ∧
+    ((r.readAt off len).2 = true ↔
+      ((((Varint.put md.header.length ++ md.header) :: pieces.map content).flatten.drop off).take len).length < len) := by
+  have hs := newReader_segs md pieces r hnew
+  have hmap : (pieces.map fun p => (⟨content p, p.contentSize⟩ : Seg)) = (pieces.map content).map Seg.exact := by
+    rw [List.map_map]
+    apply List.map_congr_left
+    intro p hp
+    simp [Seg.exact, content_length p (hsz p hp)]
+  have hsegs : r.segs = ((Varint.put md.header.length ++ md.header) :: pieces.map content).map Seg.exact := by
+    rw [hs, hmap]; rfl
+  unfold Reader.readAt
+  rw [hsegs]
+  have h := readAt_total ((Varint.put md.header.length ++ md.header) :: pieces.map content) off len
+  refine ⟨h.1, ?_⟩
+  rw [h.2]; unfold want
+  exact ⟨fun x => x.2, fun x => ⟨by simp, x⟩⟩
+
+/-! ## split-car -/
+
+section
+variable {α : Type} (size : α → Nat) (hdr target maxLinks : Nat)
+
+/-- The pieces' DAG lists, concatenated in piece order, are the input list: every block DAG is in exactly
+    one piece (the i-th DAG of the CAR is the i-th element of the concatenation), none is lost, duplicated,
+    split or reordered. -/
+theorem split_partition (ds : List α) :
+    (split size hdr target maxLinks ds).flatMap Piece.dags = ds := by
+  unfold split
+  simpa using splitGo_partition size hdr target maxLinks ds none
+
+/-- The recorded sizes: no piece is empty, the recorded file size is header + the DAG sections written to
+    it, so `ContentSize` is exactly the sum of the section lengths of its DAGs. -/
+theorem split_sizes (ds : List α) (p : Piece α) (hp : p ∈ split size hdr target maxLinks ds) :
+    p.dags ≠ [] ∧ p.fileSize = hdr + dagSum size p.dags ∧ p.contentSize hdr = dagSum size p.dags := by
+  have h := splitGo_good size hdr target maxLinks ds none (by intro c hc; cases hc) p hp
+  refine ⟨h.1, h.2, ?_⟩
+  unfold Piece.contentSize; rw [h.2]; omega
+
+/-- The rollover rule's bound: the DAG that would cross the target opens the next piece, so a piece exceeds
+    the target only if it holds a single DAG; and a piece holds at most `maxLinks + 1` DAGs. -/
+theorem split_rollover (ds : List α) (p : Piece α) (hp : p ∈ split size hdr target maxLinks ds) :
+    (p.fileSize ≤ target ∨ p.dags.length = 1) ∧ p.dags.length ≤ maxLinks + 1 :=
+  ⟨splitGo_fits size hdr target maxLinks ds none (by intro c hc; cases hc) p hp,
+   splitGo_links size hdr target maxLinks ds none (by intro c hc; cases hc) p hp⟩
+
+/-- the command panics iff the CAR holds no block -/
+theorem splitCmd_none_iff (ds : List α) : splitCmd size hdr target maxLinks ds = none ↔ ds = [] := by
+  unfold splitCmd; cases ds <;> simp
+
+end
+
+theorem dagBytes_flatMap (ps : List (Piece Dag)) :
+    (ps.map fun p => dagBytes p.dags).flatten = dagBytes (ps.flatMap Piece.dags) := by
+  induction ps with
+  | nil => rfl
+  | cons p r ih =>
+    simp only [List.map_cons, List.flatten_cons, List.flatMap_cons, ih]
+    simp [dagBytes]
+
+/-- Byte level, order and identity: the pieces' contents concatenated are the CAR's block DAG sections
+    concatenated (the data part of the original CAR without its Subset / Epoch nodes). -/
+theorem split_content_concat (hdr target maxLinks : Nat) (ds : List Dag) :
+    ((split Dag.size hdr target maxLinks ds).map fun p => dagBytes p.dags).flatten = dagBytes ds := by
+  rw [dagBytes_flatMap, split_partition]
+
+/-- The recorded range delimits the content in the file written: whatever header `H` of the fixed size and
+    whatever `tail` (Subset node, Epoch node) surround it, `file[HeaderSize, HeaderSize+ContentSize)` is
+    exactly the piece's DAG sections, and the file is at least that long. -/
+theorem split_content_range (target maxLinks : Nat) (ds : List Dag) (H tail : Bytes)
+    (p : Piece Dag) (hp : p ∈ split Dag.size H.length target maxLinks ds) :
+    B.slice (pieceFile H p tail) H.length (p.contentSize H.length) = dagBytes p.dags ∧
+    H.length + p.contentSize H.length ≤ (pieceFile H p tail).length := by
+  have hs := (split_sizes Dag.size H.length target maxLinks ds p hp).2.2
+  have hl : (dagBytes p.dags).length = p.contentSize H.length := by rw [hs, dagBytes_length]
+  unfold pieceFile
+  constructor
+  · rw [List.append_assoc]
+    have := B.slice_append_right H (dagBytes p.dags ++ tail) 0 (p.contentSize H.length)
+    rw [Nat.add_zero] at this
+    rw [this, B.slice_append_left _ _ _ _ (by omega), ← hl]
+    exact B.slice_self _
+  · simp [List.length_append]; omega
+
+/-- End to end: split a CAR, hand the written pieces and the recorded metadata to `NewSplitCarReader`
+    (readers without the local-file size check, e.g. remote ones); then every read returns the window of
+    original header ‖ all block DAG sections in CAR order, with io.EOF iff the window is short. -/
+theorem split_then_read (md : Meta) (h : Bytes) (hh : origHeader md = some h)
+    (hdr target maxLinks : Nat) (ds : List Dag)
+    (H T : Piece Dag → Bytes) (hH : ∀ p, (H p).length = hdr) (off len : Nat) :
+    let ins := (split Dag.size hdr target maxLinks ds).map fun p =>
+      (⟨RKind.mem, hdr, p.contentSize hdr, pieceFile (H p) p (T p)⟩ : PieceIn)
+    ∃ r, newReader md ins = .ok r ∧
+      (r.readAt off len).1 = ((h ++ dagBytes ds).drop off).take len ∧
+      ((r.readAt off len).2 = true ↔ (((h ++ dagBytes ds).drop off).take len).length < len) := by
+  intro ins
+  have hhe : h = Varint.put md.header.length ++ md.header := by
+    unfold origHeader at hh; simp only at hh; split at hh
+    · cases hh; rfl
+    · cases hh
+  have hhl : (Varint.put md.header.length ++ md.header).length = md.headerSize := by
+    unfold origHeader at hh; simp only at hh; split at hh
+    · assumption
+    · cases hh
+  have hok : ∃ r, newReader md ins = .ok r := by
+    rw [splitReader_new_ok_iff]
+    refine ⟨hhl, ?_⟩
+    intro p hp hk
+    simp only [ins, List.mem_map] at hp
+    obtain ⟨q, _, rfl⟩ := hp
+    cases hk
+  obtain ⟨r, hr⟩ := hok
+  refine ⟨r, hr, ?_⟩
+  have hcontent : ∀ q ∈ split Dag.size hdr target maxLinks ds,
+      content ⟨RKind.mem, hdr, q.contentSize hdr, pieceFile (H q) q (T q)⟩ = dagBytes q.dags ∧
+      hdr + q.contentSize hdr ≤ (pieceFile (H q) q (T q)).length := by
+    intro q hq
+    have := split_content_range target maxLinks ds (H q) (T q) q (by rw [hH q]; exact hq)
+    rw [hH q] at this
+    exact this
+  have hsz : ∀ p ∈ ins, p.headerSize + p.contentSize ≤ p.file.length := by
+    intro p hp
+    simp only [ins, List.mem_map] at hp
+    obtain ⟨q, hq, rfl⟩ := hp
+    exact (hcontent q hq).2
+  have hflat : ((Varint.put md.header.length ++ md.header) :: ins.map content).flatten = h ++ dagBytes ds := by
+    rw [List.flatten_cons, ← hhe]
+    congr 1
+    rw [← split_content_concat hdr target maxLinks ds]
+    congr 1
+    simp only [ins, List.map_map]
+    apply List.map_congr_left
+    intro q hq
+    exact (hcontent q hq).1
+  have hspec := splitReader_spec md ins r hr hsz off len
+  rw [hflat] at hspec
+  exact hspec
+
+/-! ## non-vacuity -/
+
+/-- three pieces, one of them empty; a read that spans all of them and runs past the end -/
+example : readAt ([[1, 2], [], [3, 4, 5]].map Seg.exact) 1 10 = ([2, 3, 4, 5], true) := by decide
+example : readAt ([[1, 2], [], [3, 4, 5]].map Seg.exact) 1 4 = ([2, 3, 4, 5], false) := by decide
+example : readAt ([[1, 2], [], [3, 4, 5]].map Seg.exact) 7 1 = ([], true) := by decide
+/-- the hypotheses of `multiReadAt_spec` are satisfiable and its conclusion is not trivially true:
+    a window that is short and one that is not -/
+example : ∃ segs : List Bytes, segs ≠ [] ∧ (readAt (segs.map Seg.exact) 0 3).2 = true ∧
+    (readAt (segs.map Seg.exact) 0 2).2 = false := ⟨[[1], [2]], by decide, by decide, by decide⟩
+/-- the excluded corner really differs from the spec: no segments, non-empty read, no EOF -/
+example : (readAt [] 0 5).2 = false ∧ ((([] : List Bytes).flatten.drop 0).take 5).length < 5 := by decide
+/-- a reader shorter than its declared size (outside `multiReadAt_spec`): the short read in the middle stops
+    the walk, no EOF is reported -/
+example : readAt [⟨[1], 3⟩, ⟨[9, 9], 2⟩] 0 4 = ([1], false) := by decide
+
+/-- `splitReader_spec` instance: header of 2 bytes (uvarint 1 ‖ 0xa0), two pieces with their own headers
+    skipped and trailing bytes ignored -/
+example :
+    (newReader ⟨[0xa0], 2⟩ [⟨.mem, 1, 2, [7, 1, 2, 8, 8]⟩, ⟨.file, 2, 1, [7, 7, 3]⟩]).toOption.map
+      (fun r => (r.readAt 0 9, r.readAt 3 2)) = some (([1, 0xa0, 1, 2, 3], true), ([2, 3], false)) := by
+  unfold newReader; rw [origHeader_a0]; decide
+/-- a local file whose size is not HeaderSize+ContentSize is refused; a wrong recorded header size too -/
+example : (newReader ⟨[0xa0], 2⟩ [⟨.file, 1, 2, [7, 1, 2, 8]⟩]).toOption.isNone = true := by
+  unfold newReader; rw [origHeader_a0]; decide
+example : (newReader ⟨[0xa0], 3⟩ []).toOption.isNone = true := by
+  unfold newReader; rw [origHeader_a0]; decide
+
+/-- the rollover rule on DAG sizes 30 30 50 10 100 10, header 10, target 75: the DAG that would cross
+    opens the next piece; an oversized DAG gets a piece of its own -/
+example : (split id 10 75 1000 [30, 30, 50, 10, 100, 10]).map (fun p => (p.dags, p.fileSize)) =
+    [([30, 30], 70), ([50, 10], 70), ([100], 110), ([10], 20)] := by decide
+/-- the link limit: `> maxLinks` is tested before appending, so a piece takes maxLinks+1 DAGs -/
+example : (split id 10 1000 2 [1, 1, 1, 1, 1]).map (fun p => p.dags.length) = [3, 2] := by decide
+example : splitCmd id 10 75 1000 ([] : List Nat) = none := by decide
+
 end C16
